@@ -23,7 +23,9 @@ def gen_defs(r, tier):
             s = f"s{i}"
             if r.chance(0.5):
                 mn = r.range(-20, 90)
-                mx = mn + r.range(1, 60)
+                # min == max (an on/off threshold) and min > max: 255 from max on, 0 below (seed C06l: min and max became the keys
+                # of a two-point step map, which collapses / inverts for such curves)
+                mx = mn + (r.range(1, 60) if r.chance(0.85) else r.range(-10, 0))
                 ops.append(f"cv.add id=L{i} kind=linear sensor={s} min={mn} max={mx} steps=nil")
             else:
                 steps = streams.gen_steps(r, fractional=r.chance(0.4))
